@@ -311,3 +311,31 @@ and string_of_data k fs =
   | DTuple, _ -> "(T" ^ String.concat "" (List.map (fun (_, t) -> " " ^ string_of_schema t) fs) ^ ")"
   | DStruct, _ ->
     "(S" ^ String.concat "" (List.map (fun (n, t) -> " (" ^ hex_of_bytes n ^ " " ^ string_of_schema t ^ ")") fs) ^ ")"
+
+(* ---------- MaxSize type expressions (text form shared with harness/src/corp.rs) ---------- *)
+let rec mty_of_sexp (e : sexp) : mty =
+  match e with
+  | A "bool" -> MBool | A "usize" -> MUsize | A "isize" -> MIsize | A "f32" -> MF32 | A "f64" -> MF64
+  | A "char" -> MChar | A "unit" -> MUnit | A "nzusize" -> MNonZeroUsize | A "nzisize" -> MNonZeroIsize
+  | A "phantom" -> MPhantom
+  | L [A "int"; A k] -> MInt (ikind_of_string k)
+  | L [A "nz"; A k] -> MNonZero (ikind_of_string k)
+  | L [A "opt"; t] -> MOption (mty_of_sexp t)
+  | L [A "res"; t; e] -> MResult (mty_of_sexp t, mty_of_sexp e)
+  | L [A "arr"; t; A n] -> MArray (mty_of_sexp t, n_of_int (int_of_string n))
+  | L [A "ref"; t] -> MRef (mty_of_sexp t)
+  | L [A "refmut"; t] -> MRefMut (mty_of_sexp t)
+  | L [A "box"; t] -> MBox (mty_of_sexp t)
+  | L [A "rc"; t] -> MRc (mty_of_sexp t)
+  | L [A "arc"; t] -> MArc (mty_of_sexp t)
+  | L (A "tup" :: ts) -> MTuple (List.map mty_of_sexp ts)
+  | L [A "range"; t] -> MRange (mty_of_sexp t)
+  | L [A "rangei"; t] -> MRangeInclusive (mty_of_sexp t)
+  | L [A "rangefrom"; t] -> MRangeFrom (mty_of_sexp t)
+  | L [A "rangeto"; t] -> MRangeTo (mty_of_sexp t)
+  | L [A "hvec"; t; A n] -> MHVec (mty_of_sexp t, n_of_int (int_of_string n))
+  | L [A "hstr"; A n] -> MHString (n_of_int (int_of_string n))
+  | L (A "struct" :: ts) -> MStruct (List.map mty_of_sexp ts)
+  | L (A "enum" :: vs) ->
+    MEnum (List.map (function L ts -> List.map mty_of_sexp ts | A _ -> failwith "bad enum variant") vs)
+  | _ -> failwith "bad mty"
